@@ -275,6 +275,24 @@ theorem staysInside_of_walk (base : List Name) (cs : List Comp) (h : (walk cs 0)
   rw [resolveFrom_append, resolveFrom_normals]
   simpa using h2
 
+/-- Joining an accepted walk onto ANY base — relative or absolute, normalised or not, from any working
+directory — never climbs above the directory the base resolves to. -/
+theorem staysInsideAny_of_walk (cwd : List Name) (base cs : List Comp) (h : (walk cs 0).isSome) :
+    StaysInsideAny cwd base cs := by
+  intro k
+  have hk := walk_take_isSome cs 0 k h
+  obtain ⟨d', hd'⟩ := Option.isSome_iff_exists.mp hk
+  obtain ⟨r', _, h2⟩ := resolveFrom_of_walk (resolveFrom cwd base) (cs.take k) [] d' (by simpa using hd')
+  refine ⟨r', ?_⟩
+  rw [resolveFrom_append]
+  simpa using h2
+
+/-- `StaysInside` is the instance "absolute, normalised base". -/
+theorem staysInside_iff_any (base : List Name) (cs : List Comp) :
+    StaysInside base cs ↔ StaysInsideAny [] (base.map Comp.normal) cs := by
+  unfold StaysInside StaysInsideAny joinResolve resolve
+  simp only [resolveFrom_normals, List.nil_append]
+
 /-! ### `mangled_name` -/
 
 /-- An ordinary file-name component: non-empty, no separator, not `.` and not `..`. -/
